@@ -688,18 +688,22 @@ func verifFamJoin(b *verifB) {
 
 func verifFamSetOp(b *verifB) {
 	b.kind, b.entry = "QueryStatement", verifEQuery
-	paren := b.opt()
-	if paren {
+	// the first and the last operand may be parenthesised, once or twice
+	d1 := b.alt(3)
+	for i := 0; i < d1; i++ {
 		b.p("(")
 	}
 	b.w("SELECT")
 	b.p("1")
-	if paren {
+	for i := 0; i < d1; i++ {
 		b.p(")")
 	}
 	op := b.alt(3)
 	ad := b.opt()
 	n := 1 + b.alt(2)
+	if b.opt() {
+		n = 0 // no set operator: a (parenthesised) query with ORDER BY / LIMIT
+	}
 	for i := 0; i < n; i++ {
 		switch op {
 		case 0:
@@ -714,8 +718,18 @@ func verifFamSetOp(b *verifB) {
 		} else {
 			b.w("DISTINCT")
 		}
+		d2 := 0
+		if i == n-1 {
+			d2 = b.alt(3)
+		}
+		for j := 0; j < d2; j++ {
+			b.p("(")
+		}
 		b.w("SELECT")
 		b.p("2")
+		for j := 0; j < d2; j++ {
+			b.p(")")
+		}
 	}
 	if b.opt() {
 		b.w("ORDER BY")
@@ -1042,16 +1056,22 @@ func verifFamType(b *verifB) {
 		b.p(">>")
 	case 2:
 		b.w("STRUCT")
-		b.p("<")
 		if b.opt() {
+			b.p("<")
 			b.list(",", func(i int) {
 				if b.opt() {
 					b.name(i)
 				}
 				b.typ()
 			})
+			b.p(">")
+		} else if b.opt() {
+			// the empty field list, fused: the lexer makes one '<>' token of it
+			b.p("<>")
+		} else {
+			b.p("<")
+			b.p(">")
 		}
-		b.p(">")
 	case 3:
 		b.w("ARRAY")
 		b.p("<")
